@@ -288,15 +288,39 @@ func (b *brokerPart) expectPublish(w *World, st *StepRec, pubS int, realm string
 	}
 	// C12 clause: a disallowed disclose_me request is refused and not delivered.
 	if dm, _ := m.Options["disclose_me"].(bool); dm && !w.realm(pubS).AllowDisclose {
-		w.st.Label("publish_disclose_refused")
 		isRefusal := func(x wamp.Message) bool {
 			er, ok := x.(*wamp.Error)
 			return ok && er.Type == wamp.PUBLISH && er.Request == req && er.Error == wamp.ErrOptionDisallowedDiscloseMe
 		}
-		if ack {
-			exp.must(pubS, fmt.Sprintf("ERROR{PUBLISH req=%d option_disallowed.disclose_me}", req), isRefusal)
+		refused := true
+		if w.sess[pubS].trusted() {
+			// trusted requester on a realm that forbids disclosure: refusal or
+			// disclosure are both accepted; follow what the router did
+			if !ack {
+				// unobservable which way it went
+				for i := range w.sess {
+					exp.may(i, "EVENT (trusted disclose_me, unacknowledged)", func(x wamp.Message) bool { _, ok := x.(*wamp.Event); return ok })
+					exp.may(i, "EVENT (trusted disclose_me, unacknowledged)", func(x wamp.Message) bool { _, ok := x.(*wamp.Event); return ok })
+					exp.may(i, "EVENT (trusted disclose_me, unacknowledged)", func(x wamp.Message) bool { _, ok := x.(*wamp.Event); return ok })
+				}
+				w.st.Label("grey:trusted_disclose_me_unacked")
+				return nil
+			}
+			refused = false
+			for _, x := range st.Recv[pubS] {
+				if isRefusal(x) {
+					refused = true
+				}
+			}
+			w.st.Label("grey:trusted_disclose_me")
 		}
-		return nil
+		if refused {
+			w.st.Label("publish_disclose_refused")
+			if ack {
+				exp.must(pubS, fmt.Sprintf("ERROR{PUBLISH req=%d option_disallowed.disclose_me}", req), isRefusal)
+			}
+			return nil
+		}
 	}
 	excludeMe := true
 	if bb, ok := m.Options["exclude_me"].(bool); ok {
